@@ -752,3 +752,25 @@ func (g *Graph) CutFor(assume ...string) Cut {
 	}
 	return cut
 }
+
+// Exits returns the end points of the live blocks without successors: the
+// points at which the function returns (a return statement is the last node
+// of such a block) or falls off its end. Blocks that end in a call that never
+// returns (panic, os.Exit) are not exits.
+func (g *Graph) Exits() []Point {
+	var out []Point
+	for _, b := range g.Blocks {
+		if !b.Live || len(b.Succs) > 0 {
+			continue
+		}
+		if n := len(b.Nodes); n > 0 {
+			if es, ok := b.Nodes[n-1].(*ast.ExprStmt); ok {
+				if call, ok := es.X.(*ast.CallExpr); ok && !g.Fn.mayReturn(call) {
+					continue
+				}
+			}
+		}
+		out = append(out, Point{int(b.Index), len(b.Nodes)})
+	}
+	return out
+}
